@@ -421,3 +421,28 @@ def refute_by_evaluation(assumptions, goal, tries=300, seed=0):
         except (ZeroDivisionError, OverflowError):
             continue
     return None
+
+
+def crosscheck_identity(goal, tries=3, seed=0):
+    """independent check of a goal the normaliser accepted WITHOUT rewrites: the goal must evaluate to true under random exact
+    rational assignments (Schwartz-Zippel style; evaluation code shares nothing with the normal-form code).  Returns False only on a
+    definite disagreement (the goal evaluates to false); unevaluable goals (uninterpreted symbols, division by zero) pass."""
+    import os
+    import random
+    import sys
+    rng = random.Random(99991 + seed)
+    dbg = os.environ.get("PYVC_RING_STATS")
+    for k in range(tries):
+        ev = Evaluator(rng, scale=3 + 2 * k)
+        try:
+            if not ev.ev(goal):
+                return False
+            if dbg:
+                sys.stderr.write("RINGX evaluated\n")
+        except CannotEvaluate:
+            if dbg:
+                sys.stderr.write("RINGX cannot-evaluate\n")
+            return True
+        except (ZeroDivisionError, OverflowError, RecursionError):
+            continue
+    return True
